@@ -32,7 +32,7 @@ EncListRaw(encs) == LET payload == Concat(encs) IN LenHdr(Len(payload), 192) \o 
 RECURSIVE Enc(_)
 Enc(item) ==
   IF item.t = "b" THEN EncBytes(item.v)
-  ELSE EncListRaw([i \in 1..Len(item.v) |-> Enc(item.v[i])])
+  ELSE EncListRaw(Mat([i \in 1..Len(item.v) |-> Enc(item.v[i])]))
 
 -----------------------------------------------------------------------------
 (* Strict decoding.  Result: [ok |-> TRUE, item, next] (next = position    *)
